@@ -1,6 +1,6 @@
 """Source of MANIFEST.json (bin/mkmanifest writes and validates it)."""
 
-HOOK_COMMITS = []
+HOOK_COMMITS = ["ab3948d verif hook (guarded by DSPLIB_VERIF): plan-cache key accessors and access observer"]
 
 CLAIMED = {
     "C04": dict(
@@ -15,6 +15,56 @@ CLAIMED = {
         technique="TLA+ spec (Slice.tla) + TLC theorems/MC; exhaustive trace validation of the real slices",
         design="4/C04"),
 }
+
+CLAIMED.update({
+    "C10": dict(
+        text="TLC checks the universal LRU model (any thread, any key, caps 1/2/4): <= Cap keys, no duplicates, exactly the most "
+             "recently used ones in recency order, the list+map implementation refines it, accesses are confined to the "
+             "caller's cache. The real library runs every request sequence up to length 4 (quick) / 6 (thorough) over 6-length "
+             "alphabets for the complex and the real family, each in a fresh thread, plus random histories over 40 lengths with "
+             "long-lived plan objects, in builds with cache size 4 (and 1, 2 thorough); the hook reports each cache access with the "
+             "key list after it and TLC steps the model with the observed accesses, checking key lists, capacity, ownership "
+             "and that every result equals the fresh-thread result.",
+        note="Trusted: TLC, PlanCache.tla, the DSPLIB_VERIF hook in lib/fft/fft.cpp (reports keys after each access), the "
+             "fresh-thread reference computed by the same library (metamorphic, 4 n eps). Which lengths a call routes through "
+             "the cache is read from the trace, not predicted.",
+        technique="TLA+ LRU spec + TLC MC; trace validation of hook events from exhaustive request histories",
+        design="4/C10"),
+    "C06": dict(
+        text="TLC checks that each implementation-shaped processor (FIR history, overlap-add, moving-average ring, median "
+             "sorted window, polyphase decimator/interpolator/rate converter) equals its definition under all framings of K "
+             "granules and all impulse inputs (linearity => all inputs). The real processors run all 2^(k-1) framings (k=8 "
+             "quick, 11-12 thorough) in exact mode (integer data; TLC recomputes every output sample from the definition over "
+             "the whole input so far) and in prefix mode (all 27 processor variants incl. Hilbert, Tuner, AGC, compressor, "
+             "limiter, gate, LMS/NLMS/RLS; compared with the one-call output of a separately constructed instance), twin "
+             "instances with identical parameters interleaved, and long random heavy-tailed framings with 2-4 interleaved "
+             "instances; TLC validates counts, rejection of non-multiples, and first-difference = none.",
+        note="Trusted: TLC, Fir/Multirate/Order.tla definitions, driver encoding. Prefix mode is metamorphic (same library, "
+             "tolerance 1e-9 rms; unchanged tree is bit-identical). Agc/FIRResampler copies share state and are re-created, not copied.",
+        technique="TLA+ stream specs + TLC MC over all framings; trace validation (exact recomputation / prefix comparison)",
+        design="4/C06"),
+    "C07": dict(
+        text="FirDef (conjugated taps), MaDef2, XcorrRe/Im, BlockLen in Fir.tla; MC: FirImpl/OlaImpl/MaImpl = definitions for all "
+             "framings. Real code on integer/Gaussian-integer data: every output of FirFilter/FftFilter (real, complex) and "
+             "MAFilter recomputed by TLC for 5 tap structures x all framings + multi-block one-shot streams; xcorr for every "
+             "length pair up to 24^2 (quick) / 48^2 (thorough) + sampled long pairs; FftFilter == FirFilter on random taps up "
+             "to 1024 with block-size arithmetic; FirFilter vs long-double sum as T3 residual.",
+        note="Trusted: TLC, Fir.tla, driver encoding, FFT rounding bound 64 eps log2(len)|h||x| (global), long-double "
+             "transliteration for the T3 clause only.",
+        technique="TLA+ defining sums evaluated by TLC on integer-domain traces of the real filters",
+        design="4/C07"),
+    "C08": dict(
+        text="Multirate.tla: ChainAt (zero-stuff, filter normalised to gain L, keep every M-th at phase phi), OutLen, NextSize, "
+             "PrevSize, ResampleLen; MC: the polyphase implementation shapes equal the chain at closed-form phases for every "
+             "coprime L/M <= 6 (quick) / 9 (thorough) under all framings. Real code: every coprime L/M <= 8 (quick) / 16 + "
+             "audio ratios (thorough), symmetric integer h with power-of-two sum, impulse and random inputs over two calls, "
+             "classes and FIRResampler wrapper with unreduced ratios; TLC infers the phase at the first call and holds it; "
+             "counts and rejections; resample(): length rule, identity for p=q, alignment of an analytic Gaussian probe.",
+        note="Trusted: TLC, Multirate.tla, driver encoding (outputs scaled by sum(h)); analytic probe for the alignment clause. "
+             "Default-designed filters are covered by prefix mode of C06 and the alignment probe only.",
+        technique="TLA+ multirate chain spec + TLC MC; trace validation with phase inferred by TLC",
+        design="4/C08"),
+})
 
 NOT_APPLICABLE = {
 }
